@@ -127,6 +127,10 @@ class SpecBuiltins:
                 return SV(TBool, it.coerce(a, t).term == it.coerce(b, t).term)
             if isinstance(a.ty, TObj) and isinstance(b.ty, TObj):
                 return SV(TBool, a.term == b.term)
+        if isinstance(a, SV) and a.ty is TAny:
+            return SV(TBool, a.term == it.coerce(b, TAny).term)
+        if isinstance(b, SV) and b.ty is TAny:
+            return SV(TBool, b.term == it.coerce(a, TAny).term)
         if isinstance(a, SV) and isinstance(a.ty, (TSeq, TTuple)):
             return SV(TBool, a.term == it.coerce(b, a.ty).term)
         if isinstance(b, SV) and isinstance(b.ty, (TSeq, TTuple)):
@@ -360,6 +364,21 @@ class SpecBuiltins:
                     return SV(a, v.ty.proj(i, v.term))
             raise Unsupported("as_list: union without a list alternative")
         return it.seq_of(v)
+
+    def s_any_as(self, it, node, fr):
+        """View an `Any`-typed value as a value of the given type: the inverse of the injection the
+        encoding uses when such a value is stored into an Any field (proj(inj(x)) == x)."""
+        fr = self._pure(fr)
+        v = it.eval(node.args[0], fr)
+        ty = self.cdb.types.spec_ty(node.args[1], fr.module)
+        if v.ty is not TAny:
+            return it.coerce(v, ty)
+        inj_name = "any_of_" + ty.name.replace("[", "_").replace("]", "_").replace(":", "_").replace(",", "_").replace(".", "_").replace("|", "_").replace("!", "_").replace("+", "_")
+        inj = z3.Function(inj_name, ty.sort(), TAny.sort())
+        proj = z3.Function("proj_" + inj_name, TAny.sort(), ty.sort())
+        x = it.bound("ax", ty.sort())
+        it.assume(z3.ForAll([x], proj(inj(x)) == x))
+        return SV(ty, proj(v.term))
 
     def s_result(self, it, node, fr):
         raise Unsupported("result is a name, not a call")
